@@ -284,6 +284,13 @@ def index_lambda_to_high_level_op(expr: IndexLambda) -> HighLevelOp:
     if isinstance(inner_expr, SCALAR_CLASSES):
         return FullOp(inner_expr)
 
+    if isinstance(inner_expr, p.NaN):
+        # pt.full(shape, nan) stores the fill value as a pymbolic NaN node
+        if inner_expr.data_type:
+            return FullOp(inner_expr.data_type(float("nan")))
+        else:
+            return FullOp(np.nan)
+
     # {{{ binary ops
 
     try:
